@@ -252,8 +252,8 @@ func (s *dlSvc) execTimeout(c *TimeoutCase) (vs []viol, shape string, notes []st
 		notes = append(notes, "mux-setup-failed")
 		return vs, "", notes
 	}
-	if c.Proto == "web" {
-		req = wire.WebRequest(s.std.Full(method), hdr, frame, false, "")
+	if c.Proto == "web" || c.Proto == "webtext" {
+		req = wire.WebRequest(s.std.Full(method), hdr, frame, c.Proto == "webtext", "")
 	} else {
 		req = wire.GRPCRequest(s.std.Full(method), hdr, bytes.NewReader(frame))
 	}
@@ -292,8 +292,8 @@ func (s *dlSvc) execTimeout(c *TimeoutCase) (vs []viol, shape string, notes []st
 	}
 
 	gcode, _, _, gok := resp.GRPCStatus()
-	if c.Proto == "web" && !gok {
-		wr := wire.DecodeWeb(resp.Body, false)
+	if (c.Proto == "web" || c.Proto == "webtext") && !gok {
+		wr := wire.DecodeWeb(resp.Body, c.Proto == "webtext")
 		if v := wr.Trailer["grpc-status"]; len(v) > 0 {
 			gok = true
 			fmt.Sscanf(v[0], "%d", &gcode)
@@ -629,6 +629,19 @@ func runTimeouts(r *mon.Run) {
 			addc("grpc", m, v, []Opts{masks[0], masks[(i%8)+1]})
 		}
 	}
+	// fixed table of malformed shapes, on every transport, method kind and
+	// target: decimal, exponent and hex-float forms, signs, separators,
+	// over-long digit strings (also zero-padded ones whose value is small)
+	for i, v := range fixedMalformed() {
+		if c := classifyTimeout(v); c == "legal" || c == "absent" {
+			panic("fixedMalformed: " + v + " is " + c)
+		}
+		for _, p := range []string{"grpc", "web", "webtext"} {
+			m := []string{"Echo", "Bidi"}[i%2]
+			addc(p, m, v, []Opts{masks[0], masks[7]})
+			jobs = append(jobs, job{TimeoutCase{Part: "timeout", Target: "proxy", Proto: p, Method: m, Value: v, Class: classifyTimeout(v)}, []Opts{masks[0]}})
+		}
+	}
 	nMal := r.Pick(2000, 40000)
 	for i := 0; i < nMal; i++ {
 		v := randMalformed(rng)
@@ -752,4 +765,29 @@ func subMasks(o Opts) []Opts {
 		}
 	}
 	return out
+}
+
+func fixedMalformed() []string {
+	out := []string{
+		"1.5S", "0.5H", "2.M", ".5S", "1.0S", "1.S", "00.5m", "1,5S", "1.5.5S",
+		"+1.5S", "-1.5S", "+1S", "-1S", "+0n", "-0n", "++1S", "+-1S", "+S", "-S",
+		"1e3S", "1E3m", "1.5e1S", "1e-3S", "1e+3S", "0x10S", "0X1fm", "0x1.8p1S", "0x1p4S", "1p4S", "0b101S", "0o17S", "017_0S", "1_000S",
+		"Inf", "InfS", "infS", "NaNS", "nanm", "+InfS",
+		" 1S", "1S ", "1 S", "1\tS", "1S\n", "\x001S",
+		"1s", "1h", "1U", "1N", "1ms", "1us", "1ns", "1SS", "1Sm", "S1", "1", "12345678", "S", "H", "", "1µ",
+		"١S", "１２S", "1２S",
+	}
+	// over-long digit strings, also zero-padded ones with a small value
+	for _, n := range []int{9, 10, 11, 19, 20, 29, 64, 201} {
+		for _, u := range []string{"S", "m", "n", "H"} {
+			out = append(out, strings.Repeat("0", n-2)+"20"+u, "0"+strings.Repeat("9", n-1)+u, strings.Repeat("0", n)+u, "1"+strings.Repeat("0", n-1)+u)
+		}
+	}
+	var res []string
+	for _, v := range out {
+		if v != "" {
+			res = append(res, v)
+		}
+	}
+	return res
 }
